@@ -80,7 +80,7 @@ class Joins:
                     cells.append(x)
                 else:
                     cells.append(env.new_cell(env.cls(x) | env.cls(y)))
-            return Str(cells, imprecise=a.imprecise or b.imprecise)
+            return Str(cells, imprecise=a.imprecise or b.imprecise, sid=a.sid if a.sid == b.sid else None)
         # different shapes: keep as many leading/trailing positions as both have
         lo = min(a.lo or 0, b.lo or 0)
         hi = None if (a.hi is None or b.hi is None) else max(a.hi, b.hi)
@@ -89,7 +89,8 @@ class Joins:
         pre = [env.new_cell(self._pcls(a, i, env) | self._pcls(b, i, env)) for i in range(k)]
         suf = [env.new_cell(self._scls(a, j, env) | self._scls(b, j, env)) for j in range(m)]
         body = env.new_cell(S.join_cls(env, a) | S.join_cls(env, b))
-        return Str(pre, body, suf, lo, hi, a.imprecise or b.imprecise)
+        # two refinements of one and the same runtime string keep its identity
+        return Str(pre, body, suf, lo, hi, a.imprecise or b.imprecise, sid=a.sid if a.sid == b.sid else None)
 
     @staticmethod
     def _npre(s):
